@@ -87,6 +87,7 @@ impl Stats {
 pub struct Marker {
     file: Option<std::fs::File>,
     pub progress: std::sync::Arc<std::sync::atomic::AtomicU64>,
+    selftest_abort_at: Option<u64>,
 }
 
 impl Marker {
@@ -94,6 +95,7 @@ impl Marker {
         Marker {
             file: None,
             progress: Default::default(),
+            selftest_abort_at: None,
         }
     }
     pub fn open(path: &str) -> Self {
@@ -106,12 +108,31 @@ impl Marker {
         Marker {
             file,
             progress: Default::default(),
+            selftest_abort_at: std::env::var("HX_SELFTEST_ABORT_AT").ok().and_then(|s| s.parse().ok()),
         }
     }
     #[inline]
     pub fn mark(&self, family: u32, prog: u32, choices: &[u16], last: u16) {
-        self.progress
+        let n = self
+            .progress
             .fetch_add(1, std::sync::atomic::Ordering::Relaxed);
+        // machinery self-test: HX_SELFTEST_ABORT_AT=<n> kills the worker right after it has marked its n-th
+        // history, as a double panic inside the engine would; the supervisor must attribute it
+        if n > 0 && self.selftest_abort_at == Some(n) {
+            if let Some(f) = &self.file {
+                use std::os::unix::fs::FileExt;
+                let mut buf = [0u8; 256];
+                buf[0..4].copy_from_slice(&family.to_le_bytes());
+                buf[4..8].copy_from_slice(&prog.to_le_bytes());
+                let k = (choices.len() + 1).min(120);
+                buf[8..10].copy_from_slice(&(k as u16).to_le_bytes());
+                for (i, c) in choices.iter().chain(std::iter::once(&last)).take(k).enumerate() {
+                    buf[10 + 2 * i..12 + 2 * i].copy_from_slice(&c.to_le_bytes());
+                }
+                let _ = f.write_at(&buf[..10 + 2 * k], 0);
+            }
+            std::process::abort();
+        }
         if let Some(f) = &self.file {
             use std::os::unix::fs::FileExt;
             let mut buf = [0u8; 256];
